@@ -96,23 +96,28 @@ class Session(BaseClientSession):
                     return True
         return False
 
-    def resolve_cap(self, url: str) -> Optional[CapData]:
+    def resolve_cap(self, url: str, consume=True) -> Optional[CapData]:
+        # The longest granted URL that the request extends wins, whichever table it is in
+        best_len, best_region, best = -1, None, None
         for cap_name, cap_url in self.global_caps.items():
-            if url.startswith(cap_url):
-                return CapData(
-                    cap_name, None, None, cap_url
-                )
+            if url.startswith(cap_url) and len(cap_url) > best_len:
+                best_len, best = len(cap_url), CapData(cap_name, None, None, cap_url)
         for region in self.regions:
-            resolved_cap = region.resolve_cap(url)
-            if resolved_cap:
-                cap_name, base_url, cap_type = resolved_cap
-                # GetMesh and friends can't be tied to a specific session or region
-                # (at least on agni) unless we go through a proxy wrapper, since every
-                # region just points at the global asset CDN.
-                if is_asset_server_cap_name(cap_name) and cap_type != CapType.WRAPPER:
-                    return CapData(cap_name, None, None, base_url, cap_type)
-                return CapData(cap_name, ref(region), ref(self), base_url, cap_type)
-        return None
+            resolved_cap = region.resolve_cap(url, consume=False)
+            if resolved_cap and len(resolved_cap[1]) > best_len:
+                best_len, best_region, best = len(resolved_cap[1]), region, resolved_cap
+        if best_region is None:
+            return best
+        if consume:
+            # Only the cap that actually won gets used up
+            best_region.resolve_cap(url)
+        cap_name, base_url, cap_type = best
+        # GetMesh and friends can't be tied to a specific session or region
+        # (at least on agni) unless we go through a proxy wrapper, since every
+        # region just points at the global asset CDN.
+        if is_asset_server_cap_name(cap_name) and cap_type != CapType.WRAPPER:
+            return CapData(cap_name, None, None, base_url, cap_type)
+        return CapData(cap_name, ref(best_region), ref(self), base_url, cap_type)
 
 
 class SessionManager(BaseClientSessionManager):
@@ -163,11 +168,14 @@ class SessionManager(BaseClientSessionManager):
         self.sessions.remove(session)
 
     def resolve_cap(self, url: str) -> Optional["CapData"]:
+        best_session, best = None, None
         for session in self.sessions:
-            cap_data = session.resolve_cap(url)
-            if cap_data:
-                return cap_data
-        return CapData()
+            cap_data = session.resolve_cap(url, consume=False)
+            if cap_data and (best is None or len(cap_data.base_url) > len(best.base_url)):
+                best_session, best = session, cap_data
+        if best_session is None:
+            return CapData()
+        return best_session.resolve_cap(url)
 
     async def leap_client_connected(self, leap_client: LEAPClient):
         self.pending_leap_clients.append(leap_client)
